@@ -163,7 +163,8 @@ impl<T> Raw<T> {
                 let mut res = None;
                 while let Some(is_right_field) = map.next_key_seed(Field(self.field_name))? {
                     if is_right_field {
-                        res = Some(map.next_value()?);
+                        // `null` is the same as no field.
+                        res = map.next_value()?;
                     } else {
                         map.next_value::<IgnoredAny>()?;
                     }
